@@ -135,6 +135,12 @@ func discharge(o *Oblig, timeoutS int, thorough bool) SolveResult {
 		return SolveResult{Status: "error", Output: fmt.Sprintf("query too large (%d bytes)", len(q))}
 	}
 	var tried []string
+	if o.Vacuity {
+		// reachability: a cheap satisfiability probe; "unknown" means "not shown vacuous"
+		r := runSolver(solvers[0], q, min(timeoutS, 3))
+		r.Tried = []string{fmt.Sprintf("%s:%s:%.2fs", r.Solver, r.Status, r.TimeS)}
+		return r
+	}
 	first := runSolver(solvers[0], q, timeoutS)
 	tried = append(tried, fmt.Sprintf("%s:%s:%.2fs", first.Solver, first.Status, first.TimeS))
 	res := first
